@@ -163,7 +163,7 @@ class Evaluator:
         if item and item.get("parent") and item.get("parent_kind", "").startswith("Impl"):
             pit = self.items.get(item["parent"])
             if pit:
-                self_ty = pit[0].tys(pit[1]["self_ty"])
+                self_ty = self.render(pit[0], pit[1]["self_ty"], {})
         env = Env(c, {}, self_ty, fn_id, 0, None)
         env.kret = lambda v, s: {"n": "leaf", "kind": "ret", "val": v}
         tree = self.ev(body["value"], st, env, lambda v, s: env.kret(v, s))
@@ -426,6 +426,11 @@ class Evaluator:
         if isinstance(f, tuple) and f and f[0] == "fn":
             # plain fn item used as a value (e.g. a predicate): opaque pure result
             return k(pure("call:" + f[1], args), st)
+        if isinstance(f, tuple) and f and f[0] == "param" and any(is_tracked(a) for a in args):
+            # a closure parameter of the function under analysis (standalone analysis of a helper):
+            # it may succeed or fail; what it does to the tracked state is its own business
+            return self.fork("CALLPARAM", (f[1],), None, loc,
+                             lambda eid: k(some(pure("result", (("ev", eid),))), st), lambda eid: k(NONE, st))
         if any(is_tracked(a) for a in args):
             return self.unm("call through opaque function value with tracked arguments", loc,
                             lambda: k(("opaque", "result"), st))
